@@ -21,6 +21,8 @@ import (
 
 type engine struct {
 	single, bigEntry, multiBlock, gapSeeks, gapGets, reopened, bloomCases int
+	corruptCases, readsAfterCorrupt                                      int
+	corruptOnly                                                           bool
 	fid                                                        uint64
 }
 
@@ -28,12 +30,13 @@ func (e *engine) Rule() string {
 	return "C35: one table per case built from a sorted duplicate-free entry set (1..60 entries; user keys with 00/ff, byte-prefix pairs, " +
 		"1-4 versions per key, values 0..3 bytes or 40..400 bytes so that single entries exceed the block), block sizes 32..4096, bloom on/off; " +
 		"then get of every stored key and of neighbours (version+1/-1, absent keys), ascending and descending seeks to stored keys, gaps between blocks, " +
-		"before-first and after-last, full scans both ways; everything repeated after reopen; non-trivial = table with at least 2 blocks and at least one answered get and one non-empty seek"
+		"before-first and after-last, full scans both ways; everything repeated after reopen; in ~30% of the small tables one bit inside a data block of the file is then flipped "+
+		"(any byte of the block incl. its trailer), the table reopened, and every stored key read twice plus seeks and scans both ways (block cache enabled, cache settled between reads); non-trivial = table with at least 2 blocks and at least one answered get and one non-empty seek"
 }
 
 func (e *engine) Extra() map[string]any {
 	return map[string]any{"single_entry_tables": e.single, "tables_with_entry_larger_than_block": e.bigEntry, "multi_block_tables": e.multiBlock,
-		"seeks_between_blocks": e.gapSeeks, "gets_above_first_entry_of_a_later_block": e.gapGets, "cases_reopened": e.reopened, "tables_with_bloom": e.bloomCases,
+		"seeks_between_blocks": e.gapSeeks, "gets_above_first_entry_of_a_later_block": e.gapGets, "cases_reopened": e.reopened, "tables_with_a_corrupted_block": e.corruptCases, "reads_after_corruption": e.readsAfterCorrupt, "tables_with_bloom": e.bloomCases,
 		"note": "counters include the re-executions of the shrinker"}
 }
 
@@ -54,11 +57,16 @@ type ent struct {
 func (e *engine) Gen(r *hlib.Rand, tier string) []string {
 	// entry set
 	n := 1 + r.Intn(20)
+	if e.corruptOnly {
+		n = 2 + r.Intn(12)
+	}
 	switch r.Intn(10) {
 	case 0:
 		n = 1
 	case 1:
-		n = 30 + r.Intn(31)
+		if !e.corruptOnly {
+			n = 30 + r.Intn(31)
+		}
 	}
 	seen := map[string]bool{}
 	var es []ent
@@ -148,9 +156,31 @@ func (e *engine) Gen(r *hlib.Rand, tier string) []string {
 		}
 		ops = append(ops, "scan asc", "scan desc")
 	}
-	probe()
-	ops = append(ops, "reopen")
-	probe()
+	if !e.corruptOnly {
+		probe()
+		ops = append(ops, "reopen")
+		probe()
+	}
+	if len(es) <= 14 && (e.corruptOnly || r.Chance(30)) {
+		// flip one bit inside one data block, reopen, then read everything at least twice
+		ops = append(ops, fmt.Sprintf("corrupt %d %d %d", r.Intn(8), r.Intn(4096), r.Intn(8)))
+		for rep := 0; rep < 2; rep++ {
+			for _, x := range es {
+				ops = append(ops, fmt.Sprintf("get %s %d", hlib.Hex(x.u), x.v))
+				if r.Chance(30) {
+					ops = append(ops, fmt.Sprintf("get %s %d", hlib.Hex(x.u), x.v))
+				}
+			}
+			for i := 0; i < 3; i++ {
+				x := hlib.Pick(r, es)
+				ops = append(ops, fmt.Sprintf("seek %s %s %d %d", hlib.Pick(r, []string{"asc", "desc"}), hlib.Hex(x.u), x.v+uint64(r.Intn(2)), 1+r.Intn(5)))
+			}
+			ops = append(ops, "scan asc", "scan desc")
+		}
+		if r.Bool() {
+			ops = append(ops, "reopen", "scan asc", "scan desc", "scan asc")
+		}
+	}
 	return ops
 }
 
@@ -219,14 +249,53 @@ func (e *engine) Exec(ops []string) []string {
 		}
 	}()
 	var bases [][]byte
+	corrupted := false
 	for i, op := range ops {
+		if corrupted && t != nil {
+			// let the asynchronous block cache apply what earlier reads inserted
+			t.SettleCaches()
+		}
 		f := strings.Fields(op)
 		if f[0] != "build" && t == nil {
 			out[i] = "no-table"
 			continue
 		}
 		switch f[0] {
+		case "corrupt":
+			bi, _ := strconv.Atoi(f[1])
+			by, _ := strconv.Atoi(f[2])
+			bit, _ := strconv.Atoi(f[3])
+			rs := t.BlockRanges()
+			rg := rs[bi%len(rs)]
+			off := int64(rg[0] + by%rg[1])
+			name := t.FileName()
+			out[i] = guard(func() string {
+				t.Close()
+				fh, err := os.OpenFile(name, os.O_RDWR, 0)
+				if err != nil {
+					return "err"
+				}
+				var one [1]byte
+				if _, err := fh.ReadAt(one[:], off); err != nil {
+					fh.Close()
+					return "err"
+				}
+				one[0] ^= 1 << uint(bit%8)
+				if _, err := fh.WriteAt(one[:], off); err != nil {
+					fh.Close()
+					return "err"
+				}
+				_ = fh.Sync()
+				fh.Close()
+				if err := t.Reopen(); err != nil {
+					return "err"
+				}
+				return "ok"
+			})
+			corrupted = true
+			e.corruptCases++
 		case "build":
+			corrupted = false
 			if t != nil {
 				t.Close()
 				t = nil
@@ -281,6 +350,9 @@ func (e *engine) Exec(ops []string) []string {
 			})
 			e.reopened++
 		case "get":
+			if corrupted {
+				e.readsAfterCorrupt++
+			}
 			v, _ := strconv.ParseUint(f[2], 10, 64)
 			k := kv.KeyWithTs(hlib.UnHex(f[1]), v)
 			// a lookup of (user key, larger version) of the first entry of a block other than the first
@@ -348,5 +420,15 @@ func (e *engine) Nontrivial(ops, impl, model, spec []string) bool {
 }
 
 func main() {
-	hlib.Main("sst", &engine{})
+	e := &engine{}
+	// -corrupt-only: every case is a small table whose file gets one bit flipped (sub-check "SST data
+	// blocks" of C14, run by props/C14_sst.json)
+	for i, a := range os.Args {
+		if a == "-corrupt-only" {
+			e.corruptOnly = true
+			os.Args = append(os.Args[:i], os.Args[i+1:]...)
+			break
+		}
+	}
+	hlib.Main("sst", e)
 }
